@@ -6,6 +6,9 @@ import Proofs.C10NtsNodup
 import Proofs.C10NtsSpec
 import Proofs.C10SpecDedup
 import Proofs.C10NtsLookup
+import Proofs.C10Ring
+import Proofs.C10Strategy
+import Proofs.C10Ordered
 /-!
 # C10 — replica sets for a token equal Cassandra's placement  (property theorems)
 
@@ -21,7 +24,7 @@ any number of tokens per node, datacenters, racks, replication factors incl. 0 /
 to the ring.  The old failing inputs are kept as regression `example`s at the end.
 -/
 namespace C10
-open Placement C10Lookup C10Simple C10Nts C10NtsNodup C10NtsSpec C10SpecDedup C10NtsLookup
+open Placement C10Lookup C10Simple C10Nts C10NtsNodup C10NtsSpec C10SpecDedup C10NtsLookup C10Ring C10Strategy C10Ordered
 
 /-! ## ring lookup -/
 
@@ -387,6 +390,288 @@ theorem C10_nts_lookup (rfs : List (Nat × Nat)) (ring : List Entry) (t : Int) (
 example : (match ntsReplicaMap [(1, 1)] [(0, ⟨1, 1, 1⟩), (10, ⟨2, 3, 1⟩)] with
      | .ok rr => (replicasFor rr 5).map (·.2)
      | .error _ => none) = some [⟨1, 1, 1⟩] := by decide
+
+/-! ## ring construction (`newTokenRing`) and the theorems above stated from the CLUSTER LAYOUT
+
+All theorems above carry the hypothesis `Sorted ring`.  It is discharged here: for every list of hosts with their
+tokens — any number of hosts, any number of tokens per host (vnodes, none), given in any order — in which no token is
+claimed twice, the ring `newTokenRing` builds is strictly ascending and holds exactly the (token, host) pairs of the
+layout; and that arrangement is unique, so ANY correct sorting algorithm (Go's `sort.Sort` is not stable and is free to
+change) returns the list the model computes.  Cassandra's `TokenMetadata.sortedTokens` with `tokenToEndpointMap` is
+characterised the same way (`cring` below): the ascending arrangement of the layout's pairs. -/
+
+/-- `C10_ring_sorted`: the ring built from any layout with pairwise distinct tokens is strictly ascending and is a
+rearrangement of exactly the layout's (token, host) pairs (nothing lost, nothing invented, multiplicities kept). -/
+theorem C10_ring_sorted (hosts : List (Host × List Int)) (hd : DistinctTokens hosts) :
+    Sorted (buildRing hosts) ∧ (buildRing hosts).Perm (allPairs hosts) :=
+  ⟨buildRing_sorted hosts hd, buildRing_perm hosts⟩
+
+/-- `C10_ring_unique`: whatever a sorting algorithm does, if its result is ascending and a rearrangement of the
+layout's pairs it IS the model's ring — the instability of `sort.Sort` cannot be observed on distinct tokens. -/
+theorem C10_ring_unique (hosts : List (Host × List Int)) (hd : DistinctTokens hosts) (ring : List Entry)
+    (hs : Sorted ring) (hp : ring.Perm (allPairs hosts)) : ring = buildRing hosts :=
+  sorted_perm_unique ring (buildRing hosts) hs (buildRing_sorted hosts hd) (hp.trans (buildRing_perm hosts).symm)
+
+/-- the ring does not depend on the order in which the hosts are reported (nor on the order of a host's tokens) -/
+theorem C10_ring_order_irrelevant (h₁ h₂ : List (Host × List Int)) (hd : DistinctTokens h₁)
+    (hp : (allPairs h₁).Perm (allPairs h₂)) : buildRing h₁ = buildRing h₂ := by
+  have hd₂ : DistinctTokens h₂ := by
+    unfold DistinctTokens at hd ⊢
+    exact (hp.map (fun e : Entry => e.1)).nodup_iff.mp hd
+  exact C10_ring_unique h₂ hd₂ (buildRing h₁) (buildRing_sorted h₁ hd) ((buildRing_perm h₁).trans hp)
+
+example : buildRing [(⟨2, 1, 1⟩, [10, -5]), (⟨1, 1, 2⟩, [3])] = [(-5, ⟨2, 1, 1⟩), (3, ⟨1, 1, 2⟩), (10, ⟨2, 1, 1⟩)] := by
+  decide
+example : DistinctTokens [(⟨2, 1, 1⟩, [10, -5]), (⟨1, 1, 2⟩, [3])] := by unfold DistinctTokens; decide
+
+/-- `C10_cluster_owner`: from the layout — the host `GetHostForToken` returns on the ring the driver builds is the owner
+of the token on Cassandra's ring `cring` (first token ≥ t, else the smallest: the range (previous token, token] with
+wrap-around). -/
+theorem C10_cluster_owner (hosts : List (Host × List Int)) (hd : DistinctTokens hosts) (cring : List Entry)
+    (hcs : Sorted cring) (hcp : cring.Perm (allPairs hosts)) (t : Int) :
+    getHostForToken (buildRing hosts) t = cring[Spec.ownerIdx cring t]? := by
+  rw [C10_ring_unique hosts hd cring hcs hcp]
+  by_cases hne : buildRing hosts = []
+  · rw [hne]; rfl
+  · obtain ⟨_, hget, _⟩ := C10_lookup_owner (buildRing hosts) t (buildRing_sorted hosts hd) hne
+    rw [hget, C10_lookup _ t (buildRing_sorted hosts hd)]
+
+/-- `C10_cluster_simple`: from the layout, SimpleStrategy — replicas of every token = Cassandra's on Cassandra's ring. -/
+theorem C10_cluster_simple (hosts : List (Host × List Int)) (hd : DistinctTokens hosts) (cring : List Entry)
+    (hcs : Sorted cring) (hcp : cring.Perm (allPairs hosts)) (hne : cring ≠ []) (rf : Nat) (t : Int) :
+    (replicasFor (simpleReplicaMap rf (buildRing hosts)) t).map (·.2) = some (Spec.simple cring rf t) := by
+  have he := C10_ring_unique hosts hd cring hcs hcp
+  rw [← he]
+  exact C10_simple cring rf t hcs hne
+
+/-- `C10_cluster_nts`: from the layout, NetworkTopologyStrategy — `replicaMap` does not panic and the replicas of every
+token are Cassandra's on Cassandra's ring (vnodes, uneven racks, rf 0 / above the DC size, unknown DCs). -/
+theorem C10_cluster_nts (hosts : List (Host × List Int)) (hd : DistinctTokens hosts) (cring : List Entry)
+    (hcs : Sorted cring) (hcp : cring.Perm (allPairs hosts)) (rfs : List (Nat × Nat)) (hkeys : (rfs.map (·.1)).Nodup)
+    (t : Int) :
+    (match ntsReplicaMap rfs (buildRing hosts) with
+     | .ok rr => (match replicasFor rr t with
+        | some e => some e.2
+        | none => some [])
+     | .error _ => none) = some (Spec.nts cring rfs t) := by
+  have he := C10_ring_unique hosts hd cring hcs hcp
+  rw [← he]
+  exact C10_nts_lookup rfs cring t hcs hkeys
+
+example : (replicasFor (simpleReplicaMap 2 (buildRing [(⟨2, 1, 1⟩, [10, -5]), (⟨1, 1, 2⟩, [3])])) 4).map (·.2)
+    = some [⟨2, 1, 1⟩, ⟨1, 1, 2⟩] := by decide
+
+/-! ## keyspace replication options: `getStrategy` / `getReplicationFactorFromOpts` for EVERY option map -/
+
+/-- `C10_strategy` (op `sstrategy`): for every strategy class Cassandra ships (with or without the package prefix) and
+EVERY option map — any keys, values of any dynamic type, any text — `getStrategy` returns what the replication setting
+means (`Spec.strategy`): SimpleStrategy with the number `replication_factor` denotes (positional decimal value, optional
+sign, int64 range; no strategy when it denotes none), NetworkTopologyStrategy with exactly the datacenters whose value
+denotes a number (the `class` key and unreadable values left out), no strategy for LocalStrategy. -/
+theorem C10_strategy (cls : List Char) (opts : List (List Char × OptVal)) (s : Strategy)
+    (h : Spec.strategy cls opts = some s) : getStrategy cls opts = s :=
+  getStrategy_eq cls opts s h
+
+/-- the replication factor as Cassandra renders it (`Integer.toString`, here `Nat.repr`) — for EVERY number up to the
+largest 64-bit int — and as an int value is read back as that number -/
+theorem C10_rf_rendering (n : Nat) (h : n < 2 ^ 63) :
+    rfFromOpt (.str (Nat.repr n).toList) = some n ∧ rfFromOpt (.int n) = some n := by
+  constructor
+  · rw [rfFromOpt_eq]; exact rfOfOpt_repr n h
+  · simp [rfFromOpt]
+
+example : rfFromOpt (.str "3".toList) = some 3 ∧ rfFromOpt (.str "3/1".toList) = none ∧
+    rfFromOpt (.str "-0".toList) = some 0 ∧ rfFromOpt (.str "9223372036854775808".toList) = none := by decide
+
+/-- `C10_strategy_nts_map`: the NetworkTopologyStrategy a keyspace's options give, as a FUNCTION datacenter ↦ rf —
+independent of the order in which Go iterates over the option map: for every option map (keys distinct), the
+datacenter map has distinct keys (the hypothesis `hkeys` of the placement theorems) and maps `dc` to the number the
+option `dc` denotes; `class`, absent options and options denoting no number are not in it. -/
+theorem C10_strategy_nts_map (cls : List Char) (opts : List (List Char × OptVal))
+    (hc : Spec.classKind cls = some .nts) (hnd : (opts.map (·.1)).Nodup) :
+    ∃ dcs, getStrategy cls opts = .nts dcs ∧ (dcs.map (·.1)).Nodup ∧
+      ∀ dc, dcs.lookup dc = if dc = "class".toList then none else (opts.lookup dc).bind Spec.rfOfOpt := by
+  refine ⟨_, getStrategy_eq cls opts _ (by unfold Spec.strategy; rw [hc]), ?_, ?_⟩
+  · exact List.Sublist.nodup ((keys_filterMap_sublist Spec.rfOfOpt _).trans (List.filter_sublist.map _)) hnd
+  · intro dc
+    have hnd' : ((opts.filter (fun kv => kv.1 ≠ "class".toList)).map (·.1)).Nodup :=
+      List.Sublist.nodup (List.filter_sublist.map _) hnd
+    rw [lookup_filterMap_keys Spec.rfOfOpt _ hnd' dc, lookup_filter_key]
+    split <;> rfl
+
+example : getStrategy "org.apache.cassandra.locator.NetworkTopologyStrategy".toList
+    [("class".toList, .str "x".toList), ("dc1".toList, .str "3".toList), ("dc2".toList, .int 2),
+     ("dc3".toList, .str "3/1".toList)] matches .nts [(_, 3), (_, 2)] := by decide
+
+/-! ## the ordered partitioner (ByteOrderedPartitioner): ring tokens are reported as hexadecimal TEXT  (KF-C10-5)
+
+Cassandra reports a ByteOrderedPartitioner token in `system.local` / `system.peers` as the lowercase hexadecimal
+rendering of its bytes.  `orderedPartitioner.ParseString` keeps that text as the token; `Hash` takes the raw key bytes.
+The ORDER of the ring is nevertheless right for every ring (`C10_ordered_ring_order`, `C10_ordered_ring`: the rendering
+is strictly monotone), hence so is every replica map, which only depends on that order.  What fails is the lookup of a
+partition key: its raw bytes are compared with the TEXT of the ring tokens.
+
+FULL property — does NOT hold for the unchanged code (`C10_cex_ordered_lookup`):
+
+  theorem C10_ordered_lookup (cring : List OEntry) (hs : SortedO cring) (hb : ∀ e ∈ cring, IsBytes e.1) (key : List Nat) :
+      (getHostForTokenO (buildRingO (Spec.reported cring)) (orderedHash key)).map (·.2)
+        = (Spec.ownerO cring key).map (·.2)
+-/
+
+/-- the driver orders ring tokens (the reported text, through `ParseString` and `orderedToken.Less`) exactly as
+Cassandra orders the tokens (byte strings) — for ALL byte strings -/
+theorem C10_ordered_ring_order (a b : List Nat) (ha : IsBytes a) (hb : IsBytes b) :
+    lexLt (orderedParse (Spec.hexOf a)) (orderedParse (Spec.hexOf b)) = lexLt a b := by
+  have := hex_lexLt a b ha hb
+  unfold orderedParse
+  cases h1 : lexLt (Spec.hexOf a) (Spec.hexOf b) <;> cases h2 : lexLt a b <;> simp_all
+
+/-- for every ring (ascending by token, any number of tokens per node): the ring `newTokenRing` builds from the reported
+tokens lists the same hosts in the same order as Cassandra's ring, entry by entry the rendering of Cassandra's token -/
+theorem C10_ordered_ring (cring : List OEntry) (hs : SortedO cring) (hb : ∀ e ∈ cring, IsBytes e.1) :
+    buildRingO (Spec.reported cring) = cring.map (fun e => (Spec.hexOf e.1, e.2)) :=
+  buildRingO_reported cring hs hb
+
+/-- `C10_ordered_lookup_partial`: the owner `GetHostForToken` returns for the token of a partition key is the owner on
+Cassandra's ring for every ring and every key for which comparing the key with the reported TEXT of each ring token
+gives the same answer as comparing it with the token (`hag` — exactly the predicate by which the harness keeps lookups
+out of the spec-backed diff). -/
+theorem C10_ordered_lookup_partial (cring : List OEntry) (hs : SortedO cring) (hb : ∀ e ∈ cring, IsBytes e.1)
+    (key : List Nat) (hag : ∀ e ∈ cring, lexLt (Spec.hexOf e.1) key = lexLt e.1 key) :
+    (getHostForTokenO (buildRingO (Spec.reported cring)) (orderedHash key)).map (·.2)
+      = (Spec.ownerO cring key).map (·.2) := by
+  rw [buildRingO_reported cring hs hb]
+  unfold getHostForTokenO Spec.ownerO orderedHash
+  have hl : (rendered cring).length = cring.length := by simp [rendered]
+  rw [hl, lookupIdxO_rendered cring key hag, lookupIdxO_eq cring key hs]
+  by_cases h0 : cring.length = 0
+  · have : cring = [] := List.length_eq_zero_iff.mp h0
+    subst this; rfl
+  · rw [if_neg h0]
+    simp only [rendered, List.getElem?_map, Option.map_map]
+    rfl
+
+example : (Spec.ownerO [([0x40], (⟨1, 1, 1⟩ : Host)), ([0x80], ⟨2, 1, 1⟩)] [0x41]).map (·.2.id) = some 2 := by decide
+
+/-- `C10_cex_ordered_lookup` (kernel-checked counterexample to the full property): ring a = 0x40, b = 0x80 (reported as
+the texts "40", "80"); the key with the single byte 0x50 lies in (0x40, 0x80] and belongs to b; the driver compares
+0x50 = 'P' with the texts "40" and "80", finds it above both, wraps around and answers a. -/
+theorem C10_cex_ordered_lookup :
+    let cring : List OEntry := [([0x40], ⟨1, 1, 1⟩), ([0x80], ⟨2, 1, 1⟩)]
+    SortedO cring ∧ (∀ e ∈ cring, IsBytes e.1) ∧
+    (getHostForTokenO (buildRingO (Spec.reported cring)) (orderedHash [0x50])).map (·.2.id) = some 1 ∧
+    (Spec.ownerO cring [0x50]).map (·.2.id) = some 2 := by
+  refine ⟨by unfold SortedO; decide, by unfold IsBytes; decide, by decide, by decide⟩
+
+/-! ## rings that are NOT strictly ascending (two claims of one token while a node is being replaced, any order)
+
+`C10_no_panic`, `C10_nts_nodup`, `C10_nts_bound`, `C10_nts_bound_total`, `C10_nts_primary_first` above carry no
+hypothesis on the token list at all: they hold for rings with equal tokens, in any order.  The same for SimpleStrategy: -/
+
+theorem perm_insertRep (e : Int × List Host) : ∀ l : ReplicaRing, (insertRep e l).Perm (e :: l)
+  | [] => List.Perm.refl _
+  | x :: xs => by
+    unfold insertRep
+    split
+    · exact List.Perm.refl _
+    · exact ((perm_insertRep e xs).cons x).trans (List.Perm.swap e x xs)
+
+theorem perm_sortReps : ∀ l : ReplicaRing, (sortReps l).Perm l
+  | [] => List.Perm.refl _
+  | y :: ys => by
+    have h : sortReps (y :: ys) = insertRep y (sortReps ys) := rfl
+    rw [h]
+    exact (perm_insertRep y _).trans ((perm_sortReps ys).cons y)
+
+/-- `C10_simple_any_ring`: for EVERY token list — equal tokens, any order, any number of tokens per node — every entry
+of `simpleStrategy.replicaMap`'s result names no node twice and at most min(rf, distinct nodes of the ring) nodes. -/
+theorem C10_simple_any_ring (rf : Nat) (tokens : List Entry) (e : Int × List Host)
+    (he : e ∈ simpleReplicaMap rf tokens) : e.2.Nodup ∧ e.2.length ≤ min rf (distinctNodes tokens) := by
+  unfold simpleReplicaMap at he
+  rw [(perm_sortReps _).mem_iff] at he
+  obtain ⟨i, _, rfl⟩ := List.mem_map.mp he
+  simp only
+  unfold simpleReplicasAt
+  rw [simpleWalk_init]
+  refine ⟨List.Sublist.nodup (List.take_sublist _ _) (nodup_firsts _), ?_⟩
+  rw [List.length_take]
+  have : (Spec.firsts ((rot tokens i).map (·.2))).length = distinctNodes tokens := by
+    unfold distinctNodes
+    apply length_firsts_congr
+    intro x
+    have hr : (rot tokens i).map (·.2) = rot (tokens.map (·.2)) i := by simp [rot]
+    rw [hr, mem_rot]
+  omega
+
+example : simpleReplicaMap 2 [(5, ⟨1, 1, 1⟩), (5, ⟨2, 1, 1⟩), (5, ⟨1, 1, 1⟩)]
+    = [(5, [⟨1, 1, 1⟩, ⟨2, 1, 1⟩]), (5, [⟨2, 1, 1⟩, ⟨1, 1, 1⟩]), (5, [⟨1, 1, 1⟩, ⟨2, 1, 1⟩])] := by decide
+
+/-! ## a statement of topology.go no input can reach: `return true` in `networkTopology.haveRF` -/
+
+theorem filter_split (d : Nat) : ∀ l : List Host,
+    (l.filter (fun x => decide (x.dc = d))).length + (l.filter (fun x => !decide (x.dc = d))).length = l.length
+  | [] => rfl
+  | x :: r => by
+    have := filter_split d r
+    by_cases hx : x.dc = d <;> simp [hx] <;> omega
+
+theorem sum_filter_le : ∀ (ks : List Nat), ks.Nodup → ∀ (l : List Host),
+    (ks.map (fun d => (l.filter (fun x => decide (x.dc = d))).length)).sum ≤ l.length
+  | [], _, l => by simp
+  | d :: ks, hnd, l => by
+    rw [List.nodup_cons] at hnd
+    have ih := sum_filter_le ks hnd.2 (l.filter (fun x => !decide (x.dc = d)))
+    have hsame : ks.map (fun d' => ((l.filter (fun x => !decide (x.dc = d))).filter (fun x => decide (x.dc = d'))).length)
+        = ks.map (fun d' => (l.filter (fun x => decide (x.dc = d'))).length) := by
+      apply List.map_congr_left
+      intro d' hd'
+      rw [List.filter_filter]
+      congr 1
+      apply List.filter_congr
+      intro x _
+      have hne : d' ≠ d := by intro e; subst e; exact hnd.1 hd'
+      by_cases hx : x.dc = d'
+      · have : ¬ x.dc = d := by intro e; exact hne (hx ▸ e)
+        simp [hx, hne]
+      · simp [hx]
+    rw [hsame] at ih
+    have hsplit := filter_split d l
+    simp only [List.map_cons, List.sum_cons]
+    omega
+
+theorem haveRF_dead (c : NtsCfg) (st : NtsSt) (g : Good c st) (hk : (c.rfs.map (·.1)).Nodup)
+    (htot : c.totalRF = (c.rfs.map (·.2)).sum) (hlt : st.replicas.length < c.totalRF) : haveRF c st = false := by
+  cases h : haveRF c st with
+  | false => rfl
+  | true =>
+    exfalso
+    unfold haveRF at h
+    simp only [Bool.and_eq_true, List.all_eq_true, beq_iff_eq] at h
+    have h2 : c.rfs.map (·.2) = (c.rfs.map (·.1)).map (fun d => (st.replicas.filter (fun x => decide (x.dc = d))).length) := by
+      rw [List.map_map]
+      apply List.map_congr_left
+      intro p hp
+      simp only [Function.comp]
+      rw [g.cnt p.1]
+      exact h.2 p hp
+    have := sum_filter_le (c.rfs.map (·.1)) hk st.replicas
+    rw [← h2] at this
+    omega
+
+/-- `C10_haveRF_never_true`: the loop condition `len(replicas) < totalRF && !n.haveRF(replicasInDC)` evaluates `haveRF`
+only while `len(replicas) < totalRF`; in every state the loop can be in (invariant `Good`, kept by every step:
+`good_walk`) `haveRF` is then false — its final `return true` is unreachable for every ring and every rf map, which is
+why no campaign ever covers that statement (TIECOV: haveRF 5/6). -/
+theorem C10_haveRF_never_true (rfs : List (Nat × Nat)) (tokens : List Entry) (hkeys : (rfs.map (·.1)).Nodup)
+    (st : NtsSt) (g : Good (cfgOf rfs tokens) st) (hlt : st.replicas.length < (cfgOf rfs tokens).totalRF) :
+    haveRF (cfgOf rfs tokens) st = false :=
+  haveRF_dead (cfgOf rfs tokens) st g hkeys rfl hlt
+
+example : Good (cfgOf [(1, 2)] [(0, ⟨1, 1, 1⟩)]) (ntsReplicasAt (cfgOf [(1, 2)] [(0, ⟨1, 1, 1⟩)]) [(0, ⟨1, 1, 1⟩)] 0) ∧
+    (ntsReplicasAt (cfgOf [(1, 2)] [(0, ⟨1, 1, 1⟩)]) [(0, ⟨1, 1, 1⟩)] 0).replicas.length < 2 := by
+  refine ⟨?_, by decide⟩
+  rw [ntsReplicasAt_eq]
+  exact good_walk _ _ _ (good_init _)
 
 /-! ## regression: the inputs of the repaired findings -/
 
